@@ -74,61 +74,85 @@ def rule_arity_slots(F, ev, R, config, rule="R-ARITY-SLOTS"):
     R.floor(rule, config, 10 * 3 + 55, "10 impls: x, count, guard + 55 slots")
 
 
+def plain_iter_of(it):
+    """X if `it` iterates X in order without skipping / reversing / filtering"""
+    import effects as fx
+    it = fx.base_iter(it)
+    if it[0] == "call" and it[1].rsplit("::", 1)[-1] in ("iter", "into_iter") and it[3]:
+        x = fx.base_iter(it[3][0])
+        if x[0] == "call" and x[1].rsplit("::", 1)[-1] in ("iter", "into_iter"):
+            return plain_iter_of(x)
+        if x[0] == "call" and x[1].rsplit("::", 1)[-1] in ("deref", "as_slice") and x[3]:
+            return x[3][0]
+        return x
+    return None
+
+
 def rule_name_routing(F, ev_unused, R, config, rule="R-NAME-ROUTING"):
-    ev = Eval(F, opaque=[k for k in F.bodies if k.endswith("create_index_mapping")])
-    ws = [b for b in F.bodies.values() if b.kind != "Closure" and b.key.endswith("create_wrapped_basis_function")]
-    ms = [b for b in F.bodies.values() if b.kind != "Closure" and b.key.endswith("create_index_mapping")]
-    if len(ws) != 1 or len(ms) != 1:
-        # anchor by structure instead of by name
-        ws = [b for b in F.bodies.values() if b.kind != "Closure" and "dyn for<'a, 'b> std::ops::Fn" in b.j.get("output", "") and b.j.get("output", "").startswith("std::result::Result<std::boxed::Box")]
-        if len(ws) != 1:
-            R.bad(rule, config, "-", "anchor-missing", "wrapper constructor not identified")
-            return
+    import effects as fx
+    ws = [b for b in F.bodies.values() if b.kind != "Closure" and "dyn for<'a, 'b> std::ops::Fn" in b.j.get("output", "") and b.j.get("output", "").startswith("std::result::Result<std::boxed::Box")]
+    if len(ws) != 1:
+        R.bad(rule, config, "-", "anchor-missing", "wrapper constructor not identified (%d candidates)" % len(ws))
+        return
     w = ws[0]
+    # the index-mapping helper: the local fn called by w that returns Result<Vec<usize>, _>
+    ms = []
+    for bi, t in w.calls():
+        if "fn" in t and t["fn"].get("key") in F.bodies and "Vec<usize>" in F.bodies[t["fn"]["key"]].j.get("output", ""):
+            ms.append((bi, t, F.bodies[t["fn"]["key"]]))
+    ev = Eval(F, opaque=[m[2].key for m in ms])
     env = Env(w)
-    # mapping = create_index_mapping(model_parameters, function_parameters)
-    mapping_calls = [(bi, t) for bi, t in w.calls() if "fn" in t and (t["fn"].get("key") or "").endswith("create_index_mapping")]
     okm = False
-    if len(mapping_calls) == 1:
-        bi, t = mapping_calls[0]
+    if len(ms) == 1:
+        bi, t, mb = ms[0]
         a0 = ev.operand(env, t["args"][0], (bi, None))
         a1 = ev.operand(env, t["args"][1], (bi, None))
         okm = a0 == ("param", w.key, 1) and a1 == ("param", w.key, 2)
     R.add(rule, config, w.key, "mapping(model-names, function-names)", okm, "" if okm else "index mapping built from the wrong lists (argument order)", w.j["span"])
-    # mapping helper: for each function parameter (in F order) its position in the model list
     evm = Eval(F)
-    for m in ms:
-        v = evm.ret_val(Env(m))
+    for _, _, m in ms[:1]:
+        menv = Env(m)
+        full, subset = ("param", m.key, 1), ("param", m.key, 2)
+        rv = evm.ret_val(menv)
+        alts = [a for a in (rv[1] if rv[0] == "phi" else (rv,)) if not is_absent_value(a)]
+        seq = None
+        for a in alts:
+            inner = a[3][0][1] if a[0] == "agg" and a[2] == "Ok" else a
+            seq = seq or fx.sequence_of(evm, menv, inner)
         ok = False
-        msg = "mapping is `%s`" % short(v)[:200]
-        if v[0] == "call" and v[1].endswith("Iterator::collect"):
-            mp = v[3][0]
-            if mp[0] == "call" and mp[1].endswith("Iterator::map") and mp[3][0] == ("call", "core::slice::iter", None, (("param", m.key, 2),), mp[3][0][4]) and mp[3][1][0] == "closure":
-                cb = F.bodies[mp[3][1][1]]
-                cv = evm.ret_val(Env(cb, {1: mp[3][1], 2: ("sym", "value")}, 1))
-                # Some(position(iter(full), |f| f == value)) as Result
-                if cv[0] == "opt":
-                    pos = None
-                    for c in cv[2]:
-                        if c[0] == "is_ok" and c[1][0] == "call" and c[1][1].endswith("Iterator::position"):
-                            pos = c[1]
-                    if pos is not None:
-                        it, pc = pos[3]
-                        okit = strip_mut(it)[0] == ("call", "core::slice::iter", None, (("param", m.key, 1),), strip_mut(it)[0][4])
-                        okeq = False
-                        if pc[0] == "closure":
-                            pb = F.bodies[pc[1]]
-                            pv = evm.ret_val(Env(pb, {1: pc, 2: ("sym", "full")}, 2))
-                            okeq = pv[0] == "call" and pv[1].endswith("PartialEq::eq") and set(pv[3]) == {("sym", "full"), ("sym", "value")}
-                        ok = okit and okeq
-                        if not okit:
-                            msg = "positions are looked up in `%s`, not in the model parameter list" % short(it)[:100]
-                        elif not okeq:
-                            msg = "position predicate is not equality with the function parameter"
+        msg = "mapping is `%s` (not recognised as one position per function parameter)" % short(rv)[:200]
+        if seq:
+            _, it, val = seq
+            dom = plain_iter_of(it)
+            v = val
+            while v[0] in ("payload", "opt"):
+                v = v[1]
+            if v[0] == "phi":
+                cand = [x for x in v[1] if not is_absent_value(x)]
+                v = cand[0] if len(cand) == 1 else v
+                while v[0] in ("payload", "opt"):
+                    v = v[1]
+            okdom = dom == subset
+            okpos = False
+            if v[0] == "call" and v[1].endswith("Iterator::position") and len(v[3]) == 2:
+                pit, pc = v[3]
+                okit = plain_iter_of(pit) == full
+                okeq = False
+                if pc[0] == "closure":
+                    pb = F.bodies[pc[1]]
+                    pv = evm.ret_val(Env(pb, {1: pc, 2: ("sym", "full")}, 2))
+                    okeq = pv[0] == "call" and pv[1].endswith("PartialEq::eq") and ("sym", "full") in pv[3] and any(contains(x, lambda y: y[0] == "elem") for x in pv[3])
+                okpos = okit and okeq
+                if not okit:
+                    msg = "positions are looked up in `%s`, not in the model parameter list" % short(pit)[:100]
+                elif not okeq:
+                    msg = "position predicate is not equality with the function parameter"
             else:
-                msg = "mapping does not range over the function parameters in their declaration order: %s" % short(mp)[:160]
+                msg = "mapping element is `%s`, not a position in the model list" % short(v)[:120]
+            if okpos and not okdom:
+                msg = "mapping does not range over the function parameters in their declaration order: %s" % short(it)[:120]
+            ok = okdom and okpos
         R.add(rule, config, m.key, "mapping[f]=position-of-fth-function-parameter-in-model-list", ok, "" if ok else msg, m.j["span"])
-    # wrapper closure: pushes params[mapping[f]] in order and calls BasisFunction::eval(function, x, that vector)
     cl = closure_terms_in(ev, env)
     wc = [(k, t) for k, t in cl.items() if F.bodies[k].arg_count == 3]
     if len(wc) != 1:
@@ -138,27 +162,28 @@ def rule_name_routing(F, ev_unused, R, config, rule="R-NAME-ROUTING"):
     cb = F.bodies[ck]
     cenv = Env(cb, {1: ct, 2: ("sym", "x"), 3: ("sym", "params")}, 1)
     caps = dict(ct[2])
-    mapping_t = [t for n, t in caps.items() if n.endswith("index_mapping") or (t[0] == "payload" and t[1][0] == "call" and t[1][1].endswith("create_index_mapping"))]
-    pushes = []
-    evalc = []
-    for cid, head, args, t, body, bi in effect_calls(ev, cenv):
-        if cid.endswith("Vec::push"):
-            pushes.append(args)
-        if cid == TRAIT_BF + "::eval":
-            evalc.append(args)
-    okp = False
-    if len(pushes) == 1 and mapping_t:
-        vec, val = pushes[0]
-        e = ("elem", ("call", "core::slice::iter", None, (mapping_t[0],), None))
-        okp = val[0] == "index" and val[1] == ("sym", "params") and val[2][0] == "elem" and val[2][1][0] == "call" and val[2][1][1] == "core::slice::iter" and val[2][1][3] == (mapping_t[0],)
-    R.add(rule, config, ck, "argument f ← params[mapping[f]] in order", okp, "" if okp else "the wrapper does not push params[mapping[f]] for f in declaration order: %s" % [short(a)[:80] for p in pushes for a in p], cb.j["span"])
-    oke = False
-    if len(evalc) == 1:
-        fn_, x_, ps = evalc[0]
-        vecb = base_alloc(ps)
-        oke = x_ == ("sym", "x") and pushes and base_alloc(pushes[0][0]) == vecb and fn_ in caps.values() and fn_ == ("param", w.key, 3)
+    mkeys = set(strip_generics(m[2].j.get("path", "")) for m in ms)
+    mapping_t = [t for n, t in caps.items() if t[0] == "payload" and t[1][0] == "call" and t[1][1] in mkeys]
+    effs = list(fx.iteration_effects(ev, cenv))
+    evalc = [e for e in effs if e.kind == "call" and e.cid == TRAIT_BF + "::eval"]
+    okp = oke = False
+    msgp = "the routed parameter vector is not recognised"
+    if len(evalc) == 1 and mapping_t:
+        fn_, x_, ps = evalc[0].args
+        seq = fx.sequence_of(ev, cenv, ps, effs)
+        if seq:
+            _, it, val = seq
+            okdom = plain_iter_of(it) == mapping_t[0]
+            v = val
+            okval = v[0] == "index" and v[1] == ("sym", "params") and v[2][0] == "elem" and fx.base_iter(v[2][1]) == fx.base_iter(it)
+            okp = okdom and okval
+            if not okdom:
+                msgp = "arguments are gathered over `%s`, not over the index mapping in declaration order" % short(it)[:100]
+            elif not okval:
+                msgp = "argument f is `%s`, expected params[mapping[f]]" % short(val)[:100]
+        oke = x_ == ("sym", "x") and fn_ == ("param", w.key, 3) and seq is not None
+    R.add(rule, config, ck, "argument f ← params[mapping[f]] in order", okp, "" if okp else msgp, cb.j["span"])
     R.add(rule, config, ck, "calls function(x, routed parameters)", oke, "" if oke else "the wrapped function is not called with x and the routed parameter vector", cb.j["span"])
-    # same wrapper constructor for functions and derivatives
     users = set()
     for b in F.bodies.values():
         for bi, t in b.calls():
@@ -167,6 +192,11 @@ def rule_name_routing(F, ev_unused, R, config, rule="R-NAME-ROUTING"):
     ok = {"new", "partial_deriv"} <= users
     R.add(rule, config, w.key, "same-wrapper-for-functions-and-derivatives", ok, "" if ok else "wrapper used by %s" % sorted(users), w.j["span"])
     R.floor(rule, config, 5, "mapping args, mapping helper, push, eval call, shared wrapper")
+
+
+def fx_norm(t):
+    import effects as fx
+    return fx.norm_elems(t)
 
 
 def rule_deriv_key(F, ev, R, config, rule="R-DERIV-KEY"):
@@ -186,35 +216,40 @@ def rule_deriv_key(F, ev, R, config, rule="R-DERIV-KEY"):
         bi, t = ins[0]
         key = ev.operand(env, t["args"][1], (bi, None))
         mapv = ev.operand(env, t["args"][0], (bi, None))
-        # key = find(filter?(enumerate(iter(model_parameters))), ..)!ok .0
+        import logic
         msg = "derivative key is `%s`" % short(key)[:200]
-        if key[0] == "field" and key[2] == "0":
-            src = key[1]
-            while src[0] in ("payload",):
+        space = None
+        k2 = logic.canon_index(fx_norm(key))
+        while k2[0] in ("payload",):
+            k2 = k2[1]
+        if k2[0] == "idx":
+            space = k2[1]
+        elif k2[0] == "field" and k2[2] == "0":
+            src = k2[1]
+            while src[0] in ("payload", "opt"):
                 src = src[1]
-            # walk down adapters that preserve the (index, item) pairs
-            t2 = src
-            chain = []
-            while t2[0] == "call" and t2[1].rsplit("::", 1)[-1] in ("find", "filter", "take_while", "skip_while", "inspect", "by_ref", "into_iter", "peekable"):
-                chain.append(t2[1].rsplit("::", 1)[-1])
-                t2 = strip_mut(t2[3][0])[0]
-            if t2[0] == "call" and t2[1].endswith("Iterator::enumerate"):
-                base = strip_mut(t2[3][0])[0]
-                okbase = base[0] == "call" and base[1].endswith("::iter") and base[3][0][0] == "field" and base[3][0][1] == ("param", b.key, 1)
-                fld = base[3][0][2] if okbase else None
-                # which list? the one compared by name in the find predicate belongs to the model: it must be the list passed as *model* list to the wrapper
-                wcalls = [(wbi, wt) for wbi, wt in b.calls() if "fn" in wt and (wt["fn"].get("key") or "").endswith("create_wrapped_basis_function")]
-                model_list = None
-                if wcalls:
-                    a0 = ev.operand(env, wcalls[0][1]["args"][0], (wcalls[0][0], None))
-                    model_list = strip_mut(a0)[0]
-                    while model_list[0] == "mutated":
-                        model_list = model_list[1]
-                ok = okbase and model_list is not None and base[3][0] == model_list
-                if not ok:
-                    msg = "the key is an index into `%s`, not into the model parameter list" % short(base[3][0])[:80]
-            else:
-                msg = "the key index is taken after a filtering adapter (`%s`): positions no longer refer to the model parameter list" % short(t2)[:120]
+            if src[0] == "call" and src[1].rsplit("::", 1)[-1] in ("find", "find_map", "next", "last", "nth") and src[3]:
+                base, filters = logic.split_filters(src[3][0])
+                if base[0] == "call" and base[1].rsplit("::", 1)[-1] == "enumerate":
+                    inner = logic.base_iter(base[3][0])
+                    x = inner
+                    plain = False
+                    while x[0] == "call" and x[1].rsplit("::", 1)[-1] in ("iter", "into_iter"):
+                        x = logic.base_iter(x[3][0])
+                        plain = True
+                    if plain and x[0] != "call":
+                        space = logic.canon_index(x)
+                    else:
+                        msg = "the key index is taken after another adapter (`%s`): positions no longer refer to the model parameter list" % short(inner)[:120]
+        wcalls = [(wbi, wt) for wbi, wt in b.calls() if "fn" in wt and (wt["fn"].get("key") or "").endswith("create_wrapped_basis_function")]
+        model_list = None
+        if wcalls:
+            a0 = ev.operand(env, wcalls[0][1]["args"][0], (wcalls[0][0], None))
+            model_list = strip_mut(a0)[0]
+        if space is not None:
+            ok = model_list is not None and space == logic.canon_index(model_list)
+            if not ok:
+                msg = "the key is an index into `%s`, not into the model parameter list" % short(space)[:80]
     R.add(rule, config, b.key, "inserted-key=index-in-model-list", ok, "" if ok else msg, b.j["span"])
     # the find predicate compares the name with the requested parameter
     # (2) lookup key in eval_partial_deriv is the index argument, zero-initialised matrix
